@@ -56,3 +56,9 @@ e('replace-loop-explicit', WD, [('        for Occurence {\n            start, en
                                  '        for occ in self.matches.into_iter().rev() {\n            let Occurence { start, end, text, .. } = occ;\n            let repr: T = Replace::replace(tokens.drain(start..end), text);\n            tokens.insert(start, repr);\n        }', 1)])
 # only UN and UN_SIX are ever stored in the flags: testing DEUX instead of TROIS refuses exactly the same inputs
 e('fr-trois-tests-deux', FR, [('"trois" | "troisième" if !blocked.contains(Excludable::TROIS)', '"trois" | "troisième" if !blocked.contains(Excludable::DEUX)', 1)])
+# the span invariant start <= end makes these identities (flagged by the former shape rules B12/B13)
+e('replace-insert-min', WD, [('tokens.insert(start, repr);', 'tokens.insert(start.min(end), repr);', 1)])
+e('occ-start-min', WD, [('            start: self.match_start,\n            end: self.match_end,', '            start: self.match_start.min(self.match_end),\n            end: self.match_end,', 1)])
+# after a not-a-number token no number is in progress, so `previous` is never consulted before it is overwritten
+e('nan-path-keeps-previous', WD, [('            self.outside_number(&token);\n            self.previous.replace(token);\n            return;', '            self.outside_number(&token);\n            return;', 1)])
+e('fr-annotate-truncate-noop', FR, [('        let mut b = DigitString::new();\n        let mut true_words: Vec<usize> = Vec::with_capacity(tokens.len());', '        let mut b = DigitString::new();\n        tokens.truncate(usize::MAX);\n        let mut true_words: Vec<usize> = Vec::with_capacity(tokens.len());', 1)])
